@@ -17,6 +17,42 @@ static volatile int      g_pt_permille, g_pt_maxus, g_pt_target; /* target: 0 al
 static __thread uint32_t t_rng;
 
 void vrt_perturb_target(int target) { g_pt_target = target; }
+
+/* role-targeted slowdown: only the threads that run ONE pipeline kernel (identified by the code range of its thread
+ * function, which is on the stack of every one of its threads) are delayed, after each semaphore wait returns, i.e. every
+ * time they receive a task: "this stage is slow relative to all others" */
+#include <execinfo.h>
+static volatile uintptr_t g_role_lo, g_role_hi;
+static volatile int       g_role_us, g_role_permille;
+static __thread int       t_role_known, t_role_match;
+void vrt_perturb_role(uintptr_t lo, uintptr_t hi, int permille, int usleep_us) {
+    g_role_lo = lo, g_role_hi = hi, g_role_permille = permille, g_role_us = usleep_us;
+}
+static int role_match(void) {
+    if (!t_role_known) {
+        void *bt[96];
+        t_internal++;
+        int n = backtrace(bt, 96);
+        t_internal--;
+        t_role_match = 0;
+        for (int i = 0; i < n; i++)
+            if ((uintptr_t)bt[i] >= g_role_lo && (uintptr_t)bt[i] < g_role_hi)
+                t_role_match = 1;
+        t_role_known = 1;
+    }
+    return t_role_match;
+}
+static inline void role_point(void) {
+    if (!g_role_hi || !role_match())
+        return;
+    if (!t_rng)
+        t_rng = ((g_pt_seed * 2654435761u) ^ ((uint32_t)(vrt_tid() + 1) * 40503u)) | 1u;
+    t_rng ^= t_rng << 13;
+    t_rng ^= t_rng >> 17;
+    t_rng ^= t_rng << 5;
+    if ((int)(t_rng % 1000u) < g_role_permille)
+        usleep((useconds_t)g_role_us);
+}
 void vrt_perturb(uint32_t seed, int permille, int max_usleep) {
     g_pt_seed     = seed;
     g_pt_maxus    = max_usleep;
@@ -62,7 +98,9 @@ EbErr __wrap_svt_release_mutex(EbHandle h) {
 }
 EbErr __wrap_svt_block_on_semaphore(EbHandle h) {
     sched_point();
-    return __real_svt_block_on_semaphore(h);
+    EbErr r = __real_svt_block_on_semaphore(h);
+    role_point();
+    return r;
 }
 EbErr __wrap_svt_post_semaphore(EbHandle h) {
     sched_point();
